@@ -22,7 +22,11 @@ ASSUMPTIONS = ["reference self-tests passed", "operators sized from the targets'
 
 
 def strategy(tier):
-    return S.program_case(["kraus", "kraus", "kraus", "op"], max_steps=3)
+    from hypothesis import strategies as st
+
+    hist = ["kraus", "kraus", "kraus", "op", "measure", "struct", "comp", "resize"]
+    return st.one_of(S.program_case(["kraus", "kraus", "kraus", "op"], max_steps=3), S.program_case(hist, max_steps=5, min_steps=2),
+                     S.lifecycle_case(tail_kinds=("kraus", "kraus", "op"), max_tail=3))
 
 
 def run_case(case):
